@@ -203,7 +203,7 @@ MAPPED_ASG = z3.Function("map_assignee_names", z3.ArraySort(IntSort(), VarName),
 
 def _comprehensions_of(relpath, qualname):
     ex = extract.load_function(relpath, qualname)
-    return [n for n in pyast.walk(ex.node) if isinstance(n, (pyast.ListComp, pyast.GeneratorExp, pyast.DictComp))]
+    return [n for n in pyast.walk(ex.node) if isinstance(n, (pyast.ListComp, pyast.GeneratorExp, pyast.DictComp, pyast.SetComp))]
 
 
 def same_except(s, r, fields):
